@@ -40,7 +40,9 @@ func (vc *VC) reset() {
 	w := vc.written
 	ab := vc.allocBlock
 	*vc = *newVC(vc.P, vc.fn, vc.spec)
-	vc.written = w
+	// the write sets of the discovery pass are frozen: the real pass records into a scratch map
+	vc.writtenFrozen = w
+	vc.written = map[*ssa.BasicBlock]map[string]map[string]bool{}
 	// allocation sites found by the discovery pass (value names are stable across passes)
 	for k, b := range ab {
 		if strings.HasPrefix(k, "v_") || strings.HasPrefix(k, "al_") {
@@ -709,8 +711,12 @@ func (vc *VC) loopHeader(li *loopInfo, b *ssa.BasicBlock, st *State, back map[[2
 	}
 	// havoc what the loop writes
 	wr := map[string]map[string]bool{}
+	wsrc := vc.written
+	if vc.writtenFrozen != nil {
+		wsrc = vc.writtenFrozen
+	}
 	for lb := range li.blocks {
-		for k, idxs := range vc.written[lb] {
+		for k, idxs := range wsrc[lb] {
 			if wr[k] == nil {
 				wr[k] = map[string]bool{}
 			}
@@ -1366,9 +1372,9 @@ func (vc *VC) mapUpdate(st *State, x *ssa.MapUpdate, guard string) {
 	vc.oblige("nopanic.nil-map", vc.srcLabel(x), vc.nopanicProps(), guard, not(sx("=", m.S, "0")), "map is not nil", x.Pos())
 	hn, hs, vn, vs := vc.mapVars(mt)
 	h := vc.get(st, hn, hs)
-	vc.set(st, hn, hs, sx("store", h, m.S, sx("store", sx("select", h, m.S), k.S, "true")))
+	vc.setAt(st, hn, hs, m.S, sx("store", sx("select", h, m.S), k.S, "true"))
 	vv := vc.get(st, vn, vs)
-	vc.set(st, vn, vs, sx("store", vv, m.S, sx("store", sx("select", vv, m.S), k.S, v.S)))
+	vc.setAt(st, vn, vs, m.S, sx("store", sx("select", vv, m.S), k.S, v.S))
 }
 
 func (vc *VC) typeAssert(st *State, x *ssa.TypeAssert, guard string) {
@@ -1388,6 +1394,11 @@ func (vc *VC) typeAssert(st *State, x *ssa.TypeAssert, guard string) {
 		tag := vc.ss().typeTag(at)
 		okc = sx("=", sx("if_tag", v.S), fmt.Sprint(tag))
 		res = vc.unboxIface(v.S, at)
+		if _, isPtr := types.Unalias(at).Underlying().(*types.Pointer); isPtr {
+			// modelling assumption (listed in the evidence): interfaces do not hold typed nil pointers
+			vc.assume(implies(okc, sx(">", sx("if_val", v.S), "0")))
+			vc.note("interface values are assumed not to hold typed nil pointers")
+		}
 	}
 	if x.CommaOk {
 		n1 := vc.fresh("ta", res.Sort)
